@@ -1085,6 +1085,58 @@ def esccall(repo: Repo) -> List[Ob]:
     if not to:
         raise AnalysisError("ESCCALL: CompositeEnvelope.trace_out delegates nowhere")
     good = all(cfg.must_pass_through(t, ro) for t in to)
+    tprops: tuple = ("C02",)
+    extra = ""
+    if not good:
+        # without the reorder the order of the kept members is whatever each generator emits: when the ket generator and the density-matrix
+        # generator follow different lists (storage order / requested order) the same request gives differently ordered reduced states
+        # depending on the representation level – i.e. on the contraction setting
+        dv, dm = _output_order_driver(repo.func("einsum_constructor:trace_out_vector")), _output_order_driver(repo.func("einsum_constructor:trace_out_matrix"))
+        if dv and dm and dv != dm:
+            tprops = ("C02", "C08")
+            extra = (f"; the ket generator emits the kept members in {'/'.join(sorted(dv))} order, the density-matrix generator in {'/'.join(sorted(dm))} order: "
+                     "the same request returns differently ordered reduced states depending on the representation level, i.e. on the contraction setting")
     (obs.append(ok("ESCCALL", ce, "reorder-before-trace", ("C02",), ce.node, "requested order is established before the partial trace")) if good else
-     obs.append(bad("ESCCALL", ce, "reorder-before-trace", ("C02",), ce.node, "ps.trace_out() is reachable without self.reorder(*states): the reduced state comes back in storage order, not in the requested order")))
+     obs.append(bad("ESCCALL", ce, "reorder-before-trace", tprops, ce.node, "ps.trace_out() is reachable without self.reorder(*states): the reduced state comes back in storage order, not in the requested order" + extra)))
     return obs
+
+
+def _output_order_driver(fi: FuncInfo) -> Set[str]:
+    """which parameter list drives the order in which indices are put on the *output* side of a two-part generator
+    (`lists = [[], []]` … `lists[1].append/extend`): {'storage'} for the first parameter, {'requested'} for the second"""
+    fn = getattr(fi, "orig", None) or fi.node
+    params = [a.arg for a in fn.args.args]
+    if len(params) < 2:
+        return set()
+    lol = set()
+    for a in walk_no_nested(fn):
+        tg = a.targets[0] if isinstance(a, ast.Assign) and len(a.targets) == 1 else (a.target if isinstance(a, ast.AnnAssign) else None)
+        v = getattr(a, "value", None)
+        if isinstance(tg, ast.Name) and isinstance(v, ast.List) and len(v.elts) == 2 and all(isinstance(e, ast.List) and not e.elts for e in v.elts):
+            lol.add(tg.id)
+    parents = {id(c): p_ for p_ in ast.walk(fn) for c in ast.iter_child_nodes(p_)}
+    out: Set[str] = set()
+
+    def role(name: str) -> Optional[str]:
+        return "storage" if name == params[0] else "requested" if name == params[1] else None
+    for c in walk_no_nested(fn):
+        mc = method_call(c)
+        if not (mc and mc[1] in ("append", "extend") and isinstance(mc[0], ast.Subscript) and isinstance(mc[0].value, ast.Name) and mc[0].value.id in lol
+                and isinstance(mc[0].slice, ast.Constant) and mc[0].slice.value == 1):
+            continue
+        driver = None
+        # a comprehension / generator argument:  extend(x for so in <list>)
+        for a in c.args:
+            if isinstance(a, (ast.GeneratorExp, ast.ListComp)) and a.generators and isinstance(a.generators[0].iter, ast.Name):
+                driver = role(a.generators[0].iter.id)
+        if driver is None:
+            # the innermost enclosing loop over one of the two parameter lists
+            x = c
+            while id(x) in parents:
+                x = parents[id(x)]
+                if isinstance(x, ast.For) and isinstance(x.iter, ast.Name) and role(x.iter.id):
+                    driver = role(x.iter.id)
+                    break
+        if driver:
+            out.add(driver)
+    return out
